@@ -142,9 +142,11 @@ fn run_case_on_current_build(case: &Case, st: &mut Stats) -> CaseResult {
         }
     }
     let mut extras: Vec<(String, f64, f64)> = Vec::new();
-    for (nm, l, h) in case.extra.iter().take(2) {
-        let mut nm = format!("zz_{}", nm);
-        while used.contains(&nm) || extras.iter().any(|e| e.0 == nm) {
+    for (nm, l, h) in case.extra.iter().take(3) {
+        // weights-only names come from the same alphabet as the formula's names and may sort before, between or
+        // after them (half of them get the prefix that used to put them last)
+        let mut nm = if l & 1 == 0 { nm.clone() } else { format!("zz_{}", nm) };
+        while used.contains(&nm) || case.names.contains(&nm) || extras.iter().any(|e| e.0 == nm) {
             nm.push('x');
         }
         let (l, h) = if case.normalised {
@@ -341,6 +343,7 @@ fn run_case_on_current_build(case: &Case, st: &mut Stats) -> CaseResult {
     };
     let nonnorm = w.iter().any(|(l, h)| l + h != 1.0) || extras.iter().any(|e| e.1 + e.2 != 1.0);
     st.flag("wmc.extra_names", !extras.is_empty());
+    st.flag("wmc.weights_only_name_sorts_before_a_formula_name", extras.iter().any(|e| used.iter().any(|u| e.0 < *u)));
     st.flag("wmc.config_order", order_names.is_some());
     st.flag("wmc.missing_weight", (0..m).any(|i| w[i] == (0.0, 0.0)));
     st.flag("wmc.level_skipping", skips);
@@ -355,7 +358,7 @@ fn run_case_on_current_build(case: &Case, st: &mut Stats) -> CaseResult {
 impl SubCheckT for Tools {
     type Case = Case;
     const NAME: &'static str = "tools";
-    const RULE: &'static str = "the three binaries built from /repo (feature cli) twice, with the dev profile and with the crate's release profile, each run as subprocesses on generated files: weighted_model_count -f F -w W [-c CFG] in single-count mode with an s-expression formula (<=5 names), dyadic weights (non-normalised, or all listed pairs normalised) for a random subset of its names plus 0..2 names that occur only in the weights file, and no config, a config without an order, or a full permutation of all names: printed unweighted count = number of models over all variables, printed weighted count = exact sum over those models of the weight products ((0,0) for names without weights), compared after parsing the two labelled stdout lines; bottomup_formula_to_bdd (linear / manual order) and bottomup_cnf_to_bdd (auto_minfill / auto_force; >=1 clause, no empty clause for FORCE; all CNF families of the other checks, header counts right or too large, final 0 sometimes missing): stdout JSON read by the harness's reader denotes the input formula. Non-trivial: >=3 variables, the formula's BDD skips a level on some path under the order used, and some weight pair with low+high != 1";
+    const RULE: &'static str = "the three binaries built from /repo (feature cli) twice, with the dev profile and with the crate's release profile, each run as subprocesses on generated files: weighted_model_count -f F -w W [-c CFG] in single-count mode with an s-expression formula (<=5 names), dyadic weights (non-normalised, or all listed pairs normalised) for a random subset of its names plus 0..3 names that occur only in the weights file (sorting before, between or after the formula's names), and no config, a config without an order, or a full permutation of all names: printed unweighted count = number of models over all variables, printed weighted count = exact sum over those models of the weight products ((0,0) for names without weights), compared after parsing the two labelled stdout lines; bottomup_formula_to_bdd (linear / manual order) and bottomup_cnf_to_bdd (auto_minfill / auto_force; >=1 clause, no empty clause for FORCE; all CNF families of the other checks, header counts right or too large, final 0 sometimes missing): stdout JSON read by the harness's reader denotes the input formula. Non-trivial: >=3 variables, the formula's BDD skips a level on some path under the order used, and some weight pair with low+high != 1";
     fn cases(tier: Tier) -> u32 {
         tier.pick(400, 8000)
     }
@@ -368,7 +371,7 @@ impl SubCheckT for Tools {
                     proptest::collection::vec(any::<u8>(), 1..8),
                     proptest::collection::vec(proptest::option::weighted(0.8, (0u8..41, 0u8..41)), nv as usize),
                     prop_oneof![3 => Just(false), 2 => Just(true)],
-                    proptest::collection::vec(("[a-z]{1,3}", 0u8..41, 0u8..41), 0..=2),
+                    proptest::collection::vec(("[A-Za-z_][a-z0-9]{0,2}", 0u8..41, 0u8..41), 0..=3),
                     proptest::option::weighted(0.5, proptest::collection::vec(any::<u16>(), 8)),
                     prop_oneof![
                         2 => (1u8..=6).prop_flat_map(|n| clauses_strategy(n, 8, 0, 4)).prop_map(|clauses| CnfCase { clauses }).boxed(),
